@@ -224,6 +224,8 @@ def run_algebra_case(case):
         other = float(b[0])
     elif kind == "tensor":
         other = bv.clone()
+    elif kind == "matrix":
+        other = bv.clone().repeat(2, 1)          # shape (2, 2): the weighted vector (and its weights) is broadcast along the rows
     elif kind == "wt_same":
         other = WeightedTensor(bv.clone(), wt.clone())
     elif kind == "wt_none":
@@ -241,15 +243,27 @@ def run_algebra_case(case):
     if not isinstance(r, WeightedTensor) or r.weight is None:
         rec["outcome"] = "weights_lost"
         return rec
-    rec["weights"] = [int(bool(v)) for v in r.weight.reshape(-1).tolist()]
-    val = r.value.reshape(-1).double()
+    if kind == "matrix":
+        # every row of the result is the vector case: same weights, same values
+        if tuple(r.value.shape) != (2, 2) or tuple(r.weight.shape) != (2, 2) or not bool(torch.equal(r.weight[0], r.weight[1])):
+            rec["outcome"] = f"broadcast_shapes value {tuple(r.value.shape)} weight {tuple(r.weight.shape)}"
+            return rec
+        rows_same = all((not w[i]) or bool(r.value[0, i] == r.value[1, i]) for i in range(2))
+        if not rows_same:
+            rec["outcome"] = "broadcast_rows_differ"
+            return rec
+        rec["weights"] = [int(bool(v)) for v in r.weight[0].tolist()]
+        val = r.value[0].reshape(-1).double()
+    else:
+        rec["weights"] = [int(bool(v)) for v in r.weight.reshape(-1).tolist()]
+        val = r.value.reshape(-1).double()
     rec["values"] = [_rat(val[i], expv[i][1]) if w[i] else zero for i in range(2)]
     if r.value.dtype == torch.bool:      # comparisons: sum the truth values
         r = WeightedTensor(r.value.float(), r.weight)
     s, n = r.wsum()
     rec["wcount"] = int(n)
     # the aggregate of the result sees its observed entries only (whatever the arithmetic made of them)
-    own = sum(float(val[i]) for i in range(2) if w[i])
+    own = sum(float(val[i]) for i in range(2) if w[i]) * (2 if kind == "matrix" else 1)
     rec["wsum_own_ok"] = bool(abs(float(s) - own) <= 1e-5 * max(1.0, abs(own)))
     den = 1
     for i in range(2):
@@ -258,5 +272,6 @@ def run_algebra_case(case):
     rec["wsum"] = _rat(s, den if sum(w) == 2 else (expv[w.index(1)][1] if sum(w) == 1 else 1))
     same = lambda p, q: bool(torch.equal(torch.nan_to_num(p, nan=-7.0, posinf=-8.0), torch.nan_to_num(q, nan=-7.0, posinf=-8.0)))  # noqa: E731
     rec["operands_untouched"] = same(x.value, av) and bool(torch.equal(x.weight, wt)) and (
-        not isinstance(other, (torch.Tensor, WeightedTensor)) or same(other.value if isinstance(other, WeightedTensor) else other, bv))
+        not isinstance(other, (torch.Tensor, WeightedTensor)) or same(other.value if isinstance(other, WeightedTensor) else other,
+                                                                      bv if kind != "matrix" else bv.repeat(2, 1)))
     return rec
